@@ -1,24 +1,45 @@
 (* NumValue.v — the value of a decimal literal and the number parse_number returns (C12, parsing side).
 
-   A literal is   [sign] I [ '.' F ] [ (e|E) [sign] X ]   (I, F, X digit strings; I nonempty or a '.'
-   present; the model also accepts an empty X, read as exponent 0).  It is described by
-     sg : option bool          sign of the literal (None: no sign, Some true: '-', Some false: '+')
+   A literal is   [sign] I [ '.' F ] [ (e|E) [sign] X ]   with I, F, X digit strings.  The model accepts
+   an empty I when a '.' is present (".5", and even "." which is read as 0) and an empty X ("1e" is
+   read as 1e0); the theorems cover these too.  A literal is described by
+     sg : option bool          its sign (None: none, Some true: '-', Some false: '+')
      I  : list N               integer digits
      fo : option (list N)      None: no '.', Some F: '.' followed by the digits F
-     eo : option (N * option bool * list N)   None: no exponent, Some (eb, esg, X): eb in {e,E}, sign, digits
-   [lit sg I fo eo] is its text, [lit_value] its exact real value, [lit_abs] the absolute value V.
+     eo : option (N * option bool * list N)   None: no exponent; Some (eb, esg, X): eb in {e,E}, sign, digits
+   [lit sg I fo eo] is its text, [wf_lit I fo eo] says the pieces are digits and (I <> [] or '.' present),
+   [lit_value neg I F E] is its exact real value and [lit_abs I F E] its absolute value V, with
+   F = frac_digits fo and E = lit_exp eo the written exponent.
+   [int_path sg I fo eo]: no '.', no exponent, value <= 2^64-1 (and <= 2^63 when negative): these
+   literals are returned as integers (literal_integer_exact); all others go through [finish].
 
    Part 1  what the scanner computes
-     scan_shape      (in Z) parse_number = integer result (plain integer that fits) or
-                     finish c neg (N / 10^kd) (Es + kd - |F|), N the value of all digits, kd the number
-                     of dropped digits, Es the (saturating) exponent accumulator
-     scan_value      (in R) 0 <= mant <= mant_max, V = 0 -> mant = 0, mant*10^expo <= V,
-                     V - mant*10^expo <= trunc_err c * V, exact when N < 10 * (mant_max / 10)
-     window_not_saturated   a literal of at most 9000 bytes whose value lies in [1e-300, 1e300] does
-                     not saturate the exponent accumulator
+     scan_shape      (in Z, no axiom) parse_number = the integer (int_path) or
+                     finish c neg (N / 10^kd) (Es + kd - |F|), N = dec (I ++ F) 0 the value of all the
+                     digits, kd >= 0 the number of dropped digits (kd > 0 -> mantissa >= mant_max/10),
+                     Es the exponent returned by the saturating accumulator of scan_exp
+     scan_value_sat  (in R) 0 <= mant <= mant_max, V = 0 -> mant = 0, V > 0 -> mant >= 1,
+                     mant*10^expo <= V, V - mant*10^expo <= trunc_err c * V, with
+                     trunc_err c = 1/(mant_max/10) = 1/450359962737049 (< 2.3e-15) with use_double and
+                     1/838860 (< 1.2e-6) without; exact when dec (I ++ F) 0 < 10 * (mant_max / 10)
+     scan_value      the same against the written exponent, under the exact non-saturation condition
+                     dec X 0 < 10000;  scan_value_cases adds the integer alternative
+     window_not_saturated   a literal of at most 9000 digits whose value lies in [1e-1000, 1e999] does
+                     not saturate the accumulator
+     NOTE  "digits worth <= mant_max  ->  exact" is false: scan_frac takes a digit only while
+           mant < mant_max/10, so "0.4503599627370495" (digits = 2^52-1) loses its last digit
+           (Example mant_max_digit_dropped).  The exactness condition proved is
+           dec (I ++ F) 0 < 10 * (mant_max / 10).
    Part 2  the parsing clause of the property
-     literal_accuracy_double_cfg, more_than_seven_digits_is_double, literal_accuracy_float_cfg,
-     out_of_range_literals (and variants), literal_integer_exact, examples. *)
+     literal_accuracy_double_cfg (+ _tight: 6e-7 / 4.3e-15, + _all: with the integer alternative),
+     more_than_seven_digits_is_double, literal_integer_exact,
+     literal_accuracy_float_cfg (window [1e-31, 1e38], 2e-6; _tight: 1.8e-6; 1e-6 is false:
+     Example float_cfg_1e6_false, "8388609.0" is returned as 8388600),
+     out_of_range_literals (use_double: > 1e309 -> infinity of the sign, < 1e-400 -> zero of the sign),
+     out_of_range_overflow (>= 2^1024 (1+5e-15)), out_of_range_huge / out_of_range_tiny (any
+     configuration: >= 10^(exp_max + digits + 1), < 10^-(exp_max + 20)),
+     examples ex_3_14, ex_small, ex_long.
+   Nothing is assumed beyond what Coq's Reals bring (through Flocq); nothing is declared here. *)
 From Coq Require Import ZArith NArith Reals Lia Lra List Bool.
 From Flocq Require Import Core BinarySingleNaN.
 From Coq Require Import Floats.SpecFloat.
@@ -729,6 +750,31 @@ Proof.
   rewrite lit_exp_sat_small in H by (try apply WF; assumption). exact H.
 Qed.
 
+(* Part 1 as a dichotomy: plain integer handled by the integer path, or [finish] on an accurate pair *)
+Theorem scan_value_cases : forall c sg I fo eo, wf_lit I fo eo ->
+  dec (exp_digits eo) 0 < 10000 ->
+  let F := frac_digits fo in
+  let E := lit_exp eo in
+  let V := lit_abs I F E in
+  (int_path sg I fo eo /\
+   parse_number c (lit sg I fo eo) = if sign_neg sg then NumSInt (- dec I 0) else NumUInt (dec I 0))
+  \/
+  (exists mant expo,
+    parse_number c (lit sg I fo eo) = finish c (sign_neg sg) mant expo /\
+    0 <= mant <= mant_max_of c /\
+    (V = 0%R -> mant = 0) /\
+    ((0 < V)%R -> 1 <= mant) /\
+    (IZR mant * p10 expo <= V)%R /\
+    (V - IZR mant * p10 expo <= trunc_err c * V)%R /\
+    (dec (I ++ F) 0 < 10 * (mant_max_of c / 10) ->
+       mant = dec (I ++ F) 0 /\ expo = E - len F /\ (IZR mant * p10 expo = V)%R) /\
+    (mant < mant_max_of c / 10 -> mant = dec (I ++ F) 0 /\ expo = E - len F)).
+Proof.
+  intros c sg I fo eo WF Hsat F E V.
+  destruct (scan_shape c sg I fo eo WF) as [H|[Hni _]]; [left; exact H|].
+  right. apply scan_value; assumption.
+Qed.
+
 (* --- size of the value against the number of digits --- *)
 
 Lemma lit_abs_upper : forall I F E, Forall digitb I -> Forall digitb F ->
@@ -1302,3 +1348,262 @@ Proof.
   - intros V0 Vt. apply out_of_range_tiny; try assumption. fold V.
     eapply Rlt_le_trans; [exact Vt|]. apply p10_mono. unfold exp_max_of. rewrite UD. lia.
 Qed.
+
+(* ------------------------------------------------------------------------------------------ *)
+(* Part G — configuration without use_double (everything is a binary32)                        *)
+(* ------------------------------------------------------------------------------------------ *)
+
+Lemma expo_upper : forall mant expo hi, 1 <= mant -> (IZR mant * p10 expo <= p10 hi)%R -> expo <= hi.
+Proof.
+  intros mant expo hi Hm H. apply p10_le_inv. eapply Rle_trans; [|exact H].
+  assert (1 <= IZR mant)%R by (apply IZR_le; lia). pose proof (p10_pos expo). nra.
+Qed.
+
+(* tight form: conversion error 6e-7 plus dropped-digit error 1/838860 < 1.2e-6.  The window is the
+   widest for which the decimal exponent handed to make_float stays within [-38, 38] (below, the
+   binary32 path has no relative bound; above, the result is an infinity) *)
+Theorem literal_accuracy_float_cfg_tight : forall c sg I fo eo,
+  use_double c = false -> wf_lit I fo eo -> ~ int_path sg I fo eo ->
+  (length (lit sg I fo eo) <= 9000)%nat ->
+  let F := frac_digits fo in
+  let E := lit_exp eo in
+  let V := lit_abs I F E in
+  (p10 (-31) <= V <= p10 38)%R ->
+  exists r, parse_number c (lit sg I fo eo) = NumFloat r /\
+    ((exists s, r = S754_infinity s) \/
+     (valid F32 r /\ FloatModel.is_finite r = true /\
+      (Rabs (SF2R radix2 r - lit_value (sign_neg sg) I F E) <= 1.8e-6 * V)%R)).
+Proof.
+  intros c sg I fo eo UD WF Hni Hlen F E V [V1 V2].
+  destruct (lit_length_Z sg I fo eo 9000 Hlen) as [LI LF]. fold F in LF.
+  pose proof (window_not_saturated I fo eo (-31) 38 WF LI LF ltac:(lia) ltac:(lia) (conj V1 V2)) as Hsat.
+  destruct (scan_value c sg I fo eo WF Hni Hsat)
+    as [mant [expo [Hp [Hr [_ [Hpos [HM [Herr _]]]]]]]].
+  fold F E V in Hpos, HM, Herr.
+  assert (Vpos : (0 < V)%R) by (eapply Rlt_le_trans; [apply (p10_pos (-31)) | exact V1]).
+  specialize (Hpos Vpos).
+  assert (Hmm : mant_max_of c = 2 ^ 23 - 1) by (unfold mant_max_of; rewrite UD; reflexivity).
+  pose proof (trunc_err_float c UD) as Te.
+  set (M := (IZR mant * p10 expo)%R) in *.
+  assert (HMlo : (/ 2 * V <= M)%R) by nra.
+  assert (M0 : (0 < M)%R) by lra.
+  assert (Hlo : -32 - 7 < expo).
+  { apply (expo_lower mant expo 7 (-32)); [lia | lia|]. fold M.
+    pose proof (half_p10 (-31)). change (-31 - 1) with (-32) in H. lra. }
+  assert (Hhi : expo <= 38) by (apply (expo_upper mant expo 38); [lia | fold M; lra]).
+  rewrite lit_value_abs. fold V. rewrite Hp.
+  destruct (finish_float_cfg_total c (sign_neg sg) mant expo UD ltac:(lia) ltac:(lia))
+    as [r [R1 [R2|[R2 [R3 R4]]]]].
+  - exists r. split; [exact R1|]. left. exact R2.
+  - exists r. split; [exact R1|]. right. split; [exact R2|]. split; [exact R3|].
+    fold M in R4.
+    apply Rle_trans with ((6e-7 + trunc_err c) * V)%R.
+    + apply err_combine with M; try lra.
+    + apply Rmult_le_compat_r; lra.
+Qed.
+
+(* Part 2, configuration without use_double, requested form *)
+Theorem literal_accuracy_float_cfg : forall c sg I fo eo,
+  use_double c = false -> wf_lit I fo eo -> ~ int_path sg I fo eo ->
+  (length (lit sg I fo eo) <= 9000)%nat ->
+  let F := frac_digits fo in
+  let E := lit_exp eo in
+  let V := lit_abs I F E in
+  (p10 (-31) <= V <= p10 38)%R ->
+  exists r, parse_number c (lit sg I fo eo) = NumFloat r /\
+    (FloatModel.is_finite r = true ->
+     (Rabs (SF2R radix2 r - lit_value (sign_neg sg) I F E) <= 2e-6 * V)%R).
+Proof.
+  intros c sg I fo eo UD WF Hni Hlen F E V HV.
+  assert (Vpos : (0 < V)%R) by (eapply Rlt_le_trans; [apply (p10_pos (-31)) | apply HV]).
+  destruct (literal_accuracy_float_cfg_tight c sg I fo eo UD WF Hni Hlen HV)
+    as [r [R1 [[s ->]|[R2 [R3 R4]]]]].
+  - eexists. split; [exact R1|]. intros Hf. discriminate Hf.
+  - exists r. split; [exact R1|]. intros _. eapply Rle_trans; [exact R4|].
+    fold F E V. apply Rmult_le_compat_r; lra.
+Qed.
+
+(* ------------------------------------------------------------------------------------------ *)
+(* Part H — all literals at once, and examples                                                 *)
+(* ------------------------------------------------------------------------------------------ *)
+
+(* use_double: every well-formed literal of at most 9000 bytes with 1e-300 <= |v| <= 1e300 is returned
+   exactly as an integer, or as a binary32 within 1e-6 |v| (at most seven significant digits), or as
+   a binary64 within 1e-13 |v| *)
+Theorem literal_accuracy_double_cfg_all : forall c sg I fo eo,
+  use_double c = true -> wf_lit I fo eo ->
+  (length (lit sg I fo eo) <= 9000)%nat ->
+  let F := frac_digits fo in
+  let E := lit_exp eo in
+  let V := lit_abs I F E in
+  (p10 (-300) <= V <= p10 300)%R ->
+  (exists z, parse_number c (lit sg I fo eo) = (if sign_neg sg then NumSInt z else NumUInt z) /\
+     IZR z = lit_value (sign_neg sg) I F E)
+  \/
+  (exists r, parse_number c (lit sg I fo eo) = NumFloat r /\ valid F32 r /\
+     FloatModel.is_finite r = true /\
+     (Rabs (SF2R radix2 r - lit_value (sign_neg sg) I F E) <= 1e-6 * V)%R /\
+     dec (I ++ F) 0 <= 2 ^ 23 - 1)
+  \/
+  (exists r, parse_number c (lit sg I fo eo) = NumDouble r /\ valid F64 r /\
+     FloatModel.is_finite r = true /\
+     (Rabs (SF2R radix2 r - lit_value (sign_neg sg) I F E) <= 1e-13 * V)%R).
+Proof.
+  intros c sg I fo eo UD WF Hlen F E V HV.
+  destruct (scan_shape c sg I fo eo WF) as [[Hi _]|[Hni _]].
+  - left. apply literal_integer_exact; assumption.
+  - right. apply literal_accuracy_double_cfg; assumption.
+Qed.
+
+Lemma lit_value_digits : forall neg I F E,
+  lit_value neg I F E = (sgnR neg * (IZR (dec (I ++ F) 0) * p10 (E - len F)))%R.
+Proof. intros. rewrite lit_value_abs, lit_abs_digits. reflexivity. Qed.
+
+Lemma window_by_digits : forall I F E lo hi n, 0 <= n ->
+  1 <= dec (I ++ F) 0 < 10 ^ n -> lo <= E - len F -> E - len F + n <= hi ->
+  (p10 lo <= lit_abs I F E <= p10 hi)%R.
+Proof.
+  intros I F E lo hi n Hn [N1 N2] Hlo Hhi. rewrite lit_abs_digits.
+  set (q := p10 (E - len F)). assert (Hq : (0 < q)%R) by apply p10_pos.
+  assert (A : (1 <= IZR (dec (I ++ F) 0))%R) by (apply IZR_le; exact N1).
+  pose proof (mant_lt_p10 _ n Hn N2) as B.
+  split.
+  - apply Rle_trans with q; [apply p10_mono; exact Hlo | nra].
+  - apply Rle_trans with (p10 n * q)%R; [apply Rmult_le_compat_r; lra|].
+    unfold q. rewrite <- p10_plus. apply p10_mono. lia.
+Qed.
+
+Ltac digits_ok := repeat constructor; unfold digitb; lia.
+
+Example ex_3_14 :
+  exists r, parse_number default_cfg [51;46;49;52]%N = NumFloat r /\ valid F32 r /\
+    FloatModel.is_finite r = true /\ (Rabs (SF2R radix2 r - 3.14) <= 1e-6 * 3.14)%R.
+Proof.
+  assert (WF : wf_lit [51]%N (Some [49;52]%N) None).
+  { split; [digits_ok|]. split; [digits_ok|]. split; [left; discriminate | exact I]. }
+  assert (Hni : ~ int_path None [51]%N (Some [49;52]%N) None) by (intros [H _]; discriminate).
+  assert (Hlen : (length (lit None [51]%N (Some [49;52]%N) None) <= 9000)%nat)
+    by (apply Nat.leb_le; vm_compute; reflexivity).
+  pose proof (literal_accuracy_double_cfg default_cfg None [51]%N (Some [49;52]%N) None
+                eq_refl WF Hni Hlen) as H.
+  cbv zeta in H.
+  assert (Hw : (p10 (-300) <= lit_abs [51]%N (frac_digits (Some [49;52]%N)) (lit_exp None) <= p10 300)%R).
+  { apply (window_by_digits _ _ _ _ _ 3); [lia | vm_compute; split; [discriminate | reflexivity] | vm_compute; discriminate | vm_compute; discriminate]. }
+  specialize (H Hw).
+  assert (HV : lit_abs [51]%N (frac_digits (Some [49;52]%N)) (lit_exp None) = 3.14%R).
+  { rewrite lit_abs_digits. cbn [frac_digits lit_exp].
+    replace (dec ([51]%N ++ [49;52]%N) 0) with 314 by (vm_compute; reflexivity).
+    change (0 - len [49;52]%N) with (-2). unfold p10. cbn. lra. }
+  assert (Hv : lit_value (sign_neg None) [51]%N (frac_digits (Some [49;52]%N)) (lit_exp None) = 3.14%R).
+  { rewrite lit_value_abs, HV. cbn [sign_neg sgnR]. ring. }
+  rewrite HV, Hv in H.
+  change (lit None [51]%N (Some [49;52]%N) None) with [51;46;49;52]%N in H.
+  destruct H as [[r [R1 [R2 [R3 [R4 _]]]]]|[r [R1 _]]].
+  - exists r. auto.
+  - exfalso. vm_compute in R1. discriminate R1.
+Qed.
+
+Example ex_small :
+  exists r, parse_number default_cfg [48;46;48;48;48;48;48;49;50;51;52;53;54;55;101;45;53]%N = NumFloat r /\
+    valid F32 r /\ FloatModel.is_finite r = true /\
+    (Rabs (SF2R radix2 r - 1.234567e-11) <= 1e-6 * 1.234567e-11)%R.
+Proof.
+  set (I := [48]%N). set (fo := Some [48;48;48;48;48;49;50;51;52;53;54;55]%N).
+  set (eo := Some (101%N, Some true, [53]%N)).
+  assert (WF : wf_lit I fo eo).
+  { split; [digits_ok|]. split; [digits_ok|]. split; [left; discriminate |].
+    split; [left; reflexivity | digits_ok]. }
+  assert (Hni : ~ int_path None I fo eo) by (intros [H _]; discriminate).
+  assert (Hlen : (length (lit None I fo eo) <= 9000)%nat)
+    by (apply Nat.leb_le; vm_compute; reflexivity).
+  pose proof (literal_accuracy_double_cfg default_cfg None I fo eo eq_refl WF Hni Hlen) as H.
+  cbv zeta in H.
+  assert (Hw : (p10 (-300) <= lit_abs I (frac_digits fo) (lit_exp eo) <= p10 300)%R).
+  { apply (window_by_digits _ _ _ _ _ 7); [lia | vm_compute; split; [discriminate | reflexivity] | vm_compute; discriminate | vm_compute; discriminate]. }
+  specialize (H Hw).
+  assert (HV : lit_abs I (frac_digits fo) (lit_exp eo) = 1.234567e-11%R).
+  { rewrite lit_abs_digits.
+    replace (dec (I ++ frac_digits fo) 0) with 1234567 by (vm_compute; reflexivity).
+    replace (lit_exp eo - len (frac_digits fo)) with (Z.opp 17) by (vm_compute; reflexivity).
+    rewrite p10_opp, <- (IZR_pow10 17) by lia.
+    replace (10 ^ 17) with 100000000000000000 by (vm_compute; reflexivity). lra. }
+  assert (Hv : lit_value (sign_neg None) I (frac_digits fo) (lit_exp eo) = 1.234567e-11%R).
+  { rewrite lit_value_abs, HV. cbn [sign_neg sgnR]. ring. }
+  rewrite HV, Hv in H.
+  change (lit None I fo eo) with [48;46;48;48;48;48;48;49;50;51;52;53;54;55;101;45;53]%N in H.
+  destruct H as [[r [R1 [R2 [R3 [R4 _]]]]]|[r [R1 _]]].
+  - exists r. auto.
+  - exfalso. vm_compute in R1. discriminate R1.
+Qed.
+
+Example ex_long :
+  exists r, parse_number default_cfg
+      [49;50;51;52;53;54;55;56;57;48;49;50;51;52;53;54;55;56;57;48;46;49;50;51;101;49;48]%N = NumDouble r /\
+    valid F64 r /\ FloatModel.is_finite r = true /\
+    (Rabs (SF2R radix2 r - 12345678901234567890.123e10) <= 1e-13 * 12345678901234567890.123e10)%R.
+Proof.
+  set (I := [49;50;51;52;53;54;55;56;57;48;49;50;51;52;53;54;55;56;57;48]%N).
+  set (fo := Some [49;50;51]%N).
+  set (eo := Some (101%N, @None bool, [49;48]%N)).
+  assert (WF : wf_lit I fo eo).
+  { split; [digits_ok|]. split; [digits_ok|]. split; [left; discriminate |].
+    split; [left; reflexivity | digits_ok]. }
+  assert (Hni : ~ int_path None I fo eo) by (intros [H _]; discriminate).
+  assert (Hlen : (length (lit None I fo eo) <= 9000)%nat)
+    by (apply Nat.leb_le; vm_compute; reflexivity).
+  assert (Hw : (p10 (-300) <= lit_abs I (frac_digits fo) (lit_exp eo) <= p10 300)%R).
+  { apply (window_by_digits _ _ _ _ _ 23); [lia | vm_compute; split; [discriminate | reflexivity] | vm_compute; discriminate | vm_compute; discriminate]. }
+  pose proof (more_than_seven_digits_is_double default_cfg None I fo eo eq_refl WF Hni Hlen Hw) as H.
+  cbv zeta in H. specialize (H ltac:(vm_compute; discriminate)).
+  assert (HV : lit_abs I (frac_digits fo) (lit_exp eo) = 12345678901234567890.123e10%R).
+  { rewrite lit_abs_digits.
+    replace (dec (I ++ frac_digits fo) 0) with 12345678901234567890123 by (vm_compute; reflexivity).
+    replace (lit_exp eo - len (frac_digits fo)) with 7 by (vm_compute; reflexivity).
+    rewrite <- (IZR_pow10 7) by lia.
+    replace (10 ^ 7) with 10000000 by (vm_compute; reflexivity). lra. }
+  assert (Hv : lit_value (sign_neg None) I (frac_digits fo) (lit_exp eo) = 12345678901234567890.123e10%R).
+  { rewrite lit_value_abs, HV. cbn [sign_neg sgnR]. ring. }
+  rewrite HV, Hv in H. exact H.
+Qed.
+
+Definition float_cfg : cfg :=
+  {| decode_unicode := true; enable_comments := false; enable_nan := false;
+     enable_inf := false; use_double := false |}.
+
+Example float_cfg_1e6_false :
+  exists r, parse_number float_cfg [56;51;56;56;54;48;57;46;48]%N = NumFloat r /\
+    FloatModel.is_finite r = true /\
+    lit_abs [56;51;56;56;54;48;57]%N [48]%N 0 = 8388609%R /\
+    (1e-6 * 8388609 < Rabs (SF2R radix2 r - lit_value false [56;51;56;56;54;48;57]%N [48]%N 0))%R.
+Proof.
+  exists (S754_finite false 16777200 (-1)).
+  split; [vm_compute; reflexivity|]. split; [reflexivity|].
+  assert (HV : lit_abs [56;51;56;56;54;48;57]%N [48]%N 0 = 8388609%R).
+  { rewrite lit_abs_digits.
+    replace (dec ([56;51;56;56;54;48;57]%N ++ [48]%N) 0) with 83886090 by (vm_compute; reflexivity).
+    change (0 - len [48]%N) with (Z.opp 1). rewrite p10_opp. change (p10 1) with 10%R. lra. }
+  split; [exact HV|].
+  rewrite lit_value_abs, HV. cbn [sgnR].
+  replace (SF2R radix2 (S754_finite false 16777200 (-1))) with 8388600%R.
+  - replace (8388600 - 1 * 8388609)%R with (-9)%R by ring. rewrite Rabs_left by lra. lra.
+  - unfold SF2R, F2R. cbn [cond_Zopp Fnum Fexp]. change (bpow radix2 (-1)) with (/ 2)%R. lra.
+Qed.
+
+Example mant_max_digit_dropped :
+  dec ([48]%N ++ [52;53;48;51;53;57;57;54;50;55;51;55;48;52;57;53]%N) 0 = mant_max_of default_cfg /\
+  parse_number default_cfg [48;46;52;53;48;51;53;57;57;54;50;55;51;55;48;52;57;53]%N
+  = parse_number default_cfg [48;46;52;53;48;51;53;57;57;54;50;55;51;55;48;52;57]%N /\
+  parse_number default_cfg [48;46;52;53;48;51;53;57;57;54;50;55;51;55;48;52;57;53]%N
+  <> parse_number default_cfg [52;53;48;51;53;57;57;54;50;55;51;55;48;52;57;53;101;45;49;54]%N.
+Proof.
+  split; [vm_compute; reflexivity|]. split; [vm_compute; reflexivity|].
+  vm_compute. discriminate.
+Qed.
+
+(* the model accepts a literal without integer digits *)
+Example dot_five_accepted :
+  parse_number default_cfg (lit None [] (Some [53]%N) None) = parse_number default_cfg [48;46;53]%N /\
+  parse_number default_cfg [46;53]%N = NumFloat (S754_finite false 8388608 (-24)) /\
+  parse_number default_cfg [46]%N = NumFloat (S754_zero false) /\
+  parse_number default_cfg [49;101]%N = parse_number default_cfg [49;101;48]%N.
+Proof. repeat split; vm_compute; reflexivity. Qed.
